@@ -204,7 +204,29 @@ func gen(g *common.Gen) {
 					size = r.Range(1, 30000)
 				}
 				capx := common.Pick(r, []int{0, 0, 1, 2, 3, 4, 8})
-				g.Op("produce name=%s ver=%s size=%d seed=%d split=%s cap=%d", nm, v, size, seed, genSplit(r, g, size), capx)
+				rm := ""
+				if len(pubs) > 0 && r.Chance(1, 6) {
+					// a Remove of already published packets arrives while this Produce holds its transaction open
+					q := common.Pick(r, pubs)
+					vc := ""
+					if q.ver != "now" {
+						vc = "/" + compText(enc.NewVersionComponent(common.Atou(q.ver)))
+					}
+					target, pf := q.name, 1
+					switch r.Intn(4) {
+					case 0:
+						target += vc
+					case 1:
+						target += "/32:6d65746164617461" + vc
+					case 2:
+						if vc != "" {
+							target, pf = q.name+vc+"/50:"+segHex(r.Intn((q.size-1)/8000+1)), 0
+						}
+					}
+					rm = fmt.Sprintf(" rm=%s,%d,%d", target, pf, r.Range(1, (size-1)/8000+2))
+					g.Stat("produce-with-remove-inside-transaction")
+				}
+				g.Op("produce name=%s ver=%s size=%d seed=%d split=%s cap=%d%s", nm, v, size, seed, genSplit(r, g, size), capx, rm)
 				seed++
 				pubs = append(pubs, pub{nm, v, size})
 				g.Stat("produce")
@@ -354,6 +376,17 @@ func genDirect(r *common.Rand, g *common.Gen) {
 	}
 	leaves := []string{"/8:73/8:61", "/8:73/8:62", "/8:73/8:63", "/8:73/8:61/8:78", "/8:73/8:62/8:79/8:7a", "/8:73/8:64/8:61", "/8:73/8:64/8:62", "/8:74/8:61"}
 	prefixes := []string{"/8:73", "/", "/8:73/8:64", "/8:73/8:61", "/8:73/8:62", "/8:74", "/8:73/8:62/8:79"}
+	if r.Chance(1, 3) {
+		// twin names: different components that coincide under other keyings of a name-indexed store -
+		// the same number in another encoding width, a generic component whose value is the TLV encoding /
+		// the URI spelling of a typed one, the same value under another type; each also as an inner component
+		g.Stat("store-part-twin-names")
+		leaves = []string{
+			"/8:74/50:01", "/8:74/50:0001", "/8:74/8:320101", "/8:74/8:7365673d31", "/8:74/54:05", "/8:74/54:0005", "/8:74/8:763d35",
+			"/8:74/8:61", "/8:74/9:61", "/8:74/8:383d61", "/8:74/50:01/8:78", "/8:74/50:0001/8:78", "/8:74/8:7365673d31/8:78", "/8:74/9:61/8:78", "/8:74/8:61/8:78",
+		}
+		prefixes = []string{"/8:74", "/", "/8:74/50:01", "/8:74/50:0001", "/8:74/8:7365673d31", "/8:74/8:61", "/8:74/9:61", "/8:74/54:05", "/8:74/54:0005"}
+	}
 	c := 1
 	vers := []uint64{0, 1, 2, 3, 5, 5, 7, 9, 256, 1 << 40}
 	for k := r.Range(2, 6); k > 0; k-- {
@@ -373,6 +406,21 @@ func genDirect(r *common.Rand, g *common.Gen) {
 			g.Op("sput name=%s ver=%d c=%02x", common.Pick(r, leaves), common.Pick(r, vers), c)
 			c++
 			g.Stat("sput")
+		case 3:
+			// Begin, Puts and Removes in order, Commit: a Remove while a transaction is open
+			var items []string
+			for j := r.Range(2, 5); j > 0; j-- {
+				if r.Chance(1, 2) {
+					items = append(items, fmt.Sprintf("p,%s,%d,%02x", common.Pick(r, leaves), common.Pick(r, vers), c))
+					c++
+				} else if r.Chance(1, 2) {
+					items = append(items, fmt.Sprintf("r,%s,0", common.Pick(r, leaves)))
+				} else {
+					items = append(items, fmt.Sprintf("r,%s,1", common.Pick(r, append(prefixes[2:], leaves...))))
+				}
+			}
+			g.Op("stx ops=%s", strings.Join(items, ";"))
+			g.Stat("stx")
 		default:
 		}
 		g.Op("get name=%s pfx=1", common.Pick(r, prefixes))
